@@ -209,7 +209,10 @@ func c09Gen(tier string, seed int64) []fw.Case {
 		// message writers around the close: one left open and closed only after the connection has been closed,
 		// and one that was written to again after its Close (an error) long before
 		for _, adv := range []string{"silent", "late-echo", "half-close"} {
-			for _, st := range []string{"writer-open-closed-afterwards", "write-to-closed-writer-earlier"} {
+			for _, st := range []string{"writer-open-closed-afterwards", "write-to-closed-writer-earlier", "read-again-after-eof-earlier"} {
+				if st == "read-again-after-eof-earlier" && adv == "half-close" {
+					continue // (a peer that has closed its sending side cannot send the message)
+				}
 				for _, cl := range []string{"Close", "CloseNow"} {
 					for _, defl := range []bool{false, true} {
 						add(c09Desc{Role: role, Adversary: adv, State: st, Closer: cl, Deflate: defl})
@@ -502,6 +505,21 @@ func c09Run(r *fw.R, d c09Desc) {
 			return
 		}
 		lateWriter = w
+	case "read-again-after-eof-earlier":
+		// a message was read to its end, and its reader was asked once more after it had said io.EOF
+		peer.Send(wire.Data(wire.OpBinary, true, []byte("a message that is read to its end")))
+		_, rd, err := c.Reader(ctx)
+		if err == nil {
+			_, err = io.ReadAll(rd)
+		}
+		if err != nil {
+			r.Violate("C09/setup-failed", "reading a message: "+err.Error(), "")
+			return
+		}
+		if n, err := rd.Read(make([]byte, 8)); n != 0 || err != io.EOF {
+			r.Violate("C09/setup-failed", fmt.Sprintf("a Read after the end of the message returned %d, %v", n, err), "")
+			return
+		}
 	case "write-to-closed-writer-earlier":
 		w, err := c.Writer(ctx, websocket.MessageText)
 		if err == nil {
